@@ -16,6 +16,8 @@ the REAL functions on every run of `./check C04`: harness/props/C04.py, `kernels
                          `(r_mask != nodata) & (r_mask != valid)`-> leftMaskedPred m noData valid : Bool
     allocate_right_mask  the same predicate                      -> rightMaskedPred m noData valid : Bool
                          `valid_index`                           -> validIndex c idx0 idxLast dsp offset : Bool
+                         `xr.where(P, 1, 0)` (the cell of r_mask)-> rightMaskCell m noData valid : Int
+                         `for dsp in range(LO, HI)`              -> rightLoopBounds d_min d_max : Int × Int
                          `len(range(d_min, d_max + 1))`          -> rangeLen d_min d_max : Int
                          the body of `for dsp in range(…)`       -> rightIterPx c idx0 idxLast dsp offset d_min d_max bit_1
                                                                     rMaskAt dilAt b_2_7 no_data_right flag
@@ -570,12 +572,30 @@ def allocate_right_kernels():
     if isinstance(st, ast.Assign) and len(st.targets) == 1 and text(st.targets[0]) == "r_mask" \
             and isinstance(st.value, ast.Attribute) and st.value.attr == "data":
         w3 = where3(st.value.value)
-    if w3 is None or text(w3[1]) != "1" or text(w3[2]) != "0":
-        raise Unsupported(f"{SRC}: allocate_right_mask: `{text(st)[:80]}` is not `r_mask = xr.where(P, 1, 0).data`")
+    if w3 is None:
+        raise Unsupported(f"{SRC}: allocate_right_mask: `{text(st)[:80]}` is not `r_mask = xr.where(P, A, B).data`")
     pred = masked_pred_kernel("right", w3[0], "rightMaskedPred", source)
-    if not (isinstance(loop, ast.For) and not loop.orelse and text(loop.target) == "dsp"
-            and text(loop.iter) == "range(d_min, d_max + 1)"):
-        raise Unsupported(f"{SRC}: allocate_right_mask: the loop is not `for dsp in range(d_min, d_max + 1)`")
+    # the cell of `r_mask` the loop reads: xr.where(P, A, B)
+    pc = Pointwise("allocate_right_mask", masked_atoms("right"), consts, source)
+    cp_, ca, cb = (pc.expr(x, {}) for x in w3)
+    if cp_.ty != BOOL or ca.ty != INT or cb.ty != INT or pc.is_array(ca) or pc.is_array(cb):
+        raise Unsupported(f"{SRC}: allocate_right_mask: `{text(st)[:80]}`: xr.where(P, A, B) with A, B not scalar ints")
+    kc = pc.kernel("rightMaskCell", merge1("pyOut", cp_, ca, cb, Ret([Ex("var", INT, (), "pyOut")])), [INT], text(st))
+    kc.origin = f"{SRC}: allocate_right_mask, the cell of `r_mask` after `{text(st)[:40]}…` (what the loop adds to `b_2_7`)"
+    # for dsp in range(LO, HI): the bounds are translated (the fold of the loop body over them is Properties/C04Kernels.lean)
+    if not (isinstance(loop, ast.For) and not loop.orelse and text(loop.target) == "dsp" and isinstance(loop.iter, ast.Call)
+            and text(loop.iter.func) == "range" and len(loop.iter.args) == 2 and not loop.iter.keywords
+            and not any(isinstance(a, ast.Starred) for a in loop.iter.args)):
+        raise Unsupported(f"{SRC}: allocate_right_mask: the loop is not `for dsp in range(LO, HI)`")
+    pb = Pointwise("allocate_right_mask", RIGHT_ATOMS[5:], consts, source)
+    lo, hi = (pb.expr(a, {}) for a in loop.iter.args)
+    if lo.ty != INT or hi.ty != INT:
+        raise Unsupported(f"{SRC}: allocate_right_mask: the bounds of the loop are not ints")
+    kb = pb.kernel("rightLoopBounds", Ret([lo, hi]), [INT, INT], f"for dsp in {text(loop.iter)}:")
+    kb.origin = f"{SRC}: allocate_right_mask, the bounds (first, one past the last) of `for dsp in {text(loop.iter)}`"
+    for node in ast.walk(loop):
+        if isinstance(node, (ast.Break, ast.Continue, ast.Return)):
+            raise Unsupported(f"{SRC}: allocate_right_mask: `{type(node).__name__.lower()}` inside the loop")
     for c in COUNTERS:
         pw.reserved.discard(c)
     pw.reserved.discard("flag")
@@ -699,7 +719,7 @@ def allocate_right_kernels():
     pl = Pointwise("allocate_right_mask", RIGHT_ATOMS[5:], consts, source)
     kl = pl.kernel("rangeLen", Ret([pl.expr(found["rangeLen"], {})]), [INT], text(found["rangeLen"]))
     kl.origin = f"{SRC}: allocate_right_mask, `{text(found['rangeLen'])}`"
-    return pred, kv, kl, k
+    return pred, kc, kv, kl, kb, k
 
 
 # ------------------------------------------------------------------------------------------------
@@ -809,14 +829,14 @@ def build_left():
 
 
 def build_right():
-    pred, kv, kl, k = allocate_right_kernels()
-    return {"rightMaskedPred": pred, "validIndex": kv, "rangeLen": kl, "rightIterPx": k}
+    pred, kc, kv, kl, kb, k = allocate_right_kernels()
+    return {"rightMaskedPred": pred, "rightMaskCell": kc, "validIndex": kv, "rangeLen": kl, "rightLoopBounds": kb, "rightIterPx": k}
 
 
 GROUPS = [
     (("validityMaskCol",), lambda: {"validityMaskCol": validity_mask_kernel()}),
     (("leftMaskedPred", "allocLeftPx"), build_left),
-    (("rightMaskedPred", "validIndex", "rangeLen", "rightIterPx"), build_right),
+    (("rightMaskedPred", "rightMaskCell", "validIndex", "rangeLen", "rightLoopBounds", "rightIterPx"), build_right),
     (("maskInvalidPx",), lambda: {"maskInvalidPx": mask_invalid_kernel()}),
     (("maskBorderPx",), lambda: {"maskBorderPx": mask_border_kernel()}),
 ]
@@ -852,6 +872,8 @@ GOLDEN = {
     "leftMaskedPred": [(0, 1, 0), (1, 1, 0), (2, 1, 0), (5, 7, 5), (9, 7, 5), (3, 3, 3)],
     "allocLeftPx": [(4, True, 2, 1, 0), (4, False, 2, 1, 0), (0, True, 1, 1, 0), (6, False, 0, 1, 0)],
     "rightMaskedPred": [(0, 1, 0), (1, 1, 0), (2, 1, 0), (5, 7, 5), (9, 7, 5)],
+    "rightMaskCell": [(0, 1, 0), (1, 1, 0), (2, 1, 0), (9, 7, 5)],
+    "rightLoopBounds": [(-2, 2), (3, 3), (2, 1)],
     "validIndex": [(0, 0, 5, -1, 0), (0, 0, 5, 0, 0), (4, 0, 5, 1, 0), (4, 0, 5, 2, 0), (1, 0, 5, 0, 1), (0, 0, 5, 1, 1),
                    (4, 0, 5, 0, 1), (5, 0, 5, -1, 1), (2, 0, 2, 0, 2)],
     "rangeLen": [(-2, 2), (3, 3), (1, 4), (2, 1), (5, -5)],
@@ -996,7 +1018,7 @@ REFUSED_EDITS = [
     ("right", 'b_2_7 = np.full((cv.sizes["row"], cv.sizes["col"]), 0)', 'b_2_7 = np.zeros((cv.sizes["row"], cv.sizes["col"]), dtype=np.uint8)'),
     ("right", 'no_data_right = np.full((cv.sizes["row"], cv.sizes["col"]), 0)', 'no_data_right = np.full((cv.sizes["row"], cv.sizes["col"]), 0, dtype=np.uint8)'),
     ("right", "        0,\n    ).data\n", "        0,\n    ).data.astype(np.uint8)\n"),
-    ("right", "for dsp in range(d_min, d_max + 1):", "for dsp in range(d_min, d_max):"),
+    ("right", "for dsp in range(d_min, d_max + 1):", "for dsp in range(d_min, d_max + 1, 2):"),
     ("right", "d_min, d_max = cv.coords[\"disp\"].data[[0, -1]].astype(int)", "d_max, d_min = cv.coords[\"disp\"].data[[0, -1]].astype(int)"),
     ("right", "col_range = np.arange(cv.sizes[\"col\"])", "col_range = np.arange(1, cv.sizes[\"col\"])"),
     ("right", "b_2_7[:, bit_1[0]] = 0", "b_2_7[:, bit_1[0]] -= 1"),
